@@ -18,6 +18,16 @@ macro_rules! dispatch {
         match $id {
             "C01" => $f::<props::c01::C01>($($arg),*),
             "C02" => $f::<props::c02::C02>($($arg),*),
+            "C05" => $f::<props::simprops::C05>($($arg),*),
+            "C06" => $f::<props::simprops::C06>($($arg),*),
+            "C07" => $f::<props::simprops::C07>($($arg),*),
+            "C08" => $f::<props::simprops::C08>($($arg),*),
+            "C09" => $f::<props::simprops::C09>($($arg),*),
+            "C10" => $f::<props::simprops::C10>($($arg),*),
+            "C13" => $f::<props::simprops::C13>($($arg),*),
+            "C14" => $f::<props::simprops::C14>($($arg),*),
+            "C15" => $f::<props::simprops::C15>($($arg),*),
+            "C16" => $f::<props::simprops::C16>($($arg),*),
             other => {
                 eprintln!("unknown property {other}");
                 std::process::exit(2)
